@@ -12,7 +12,7 @@ for pid in allp:
         continue
     P = props.PROPS[pid]
     lean = ROOT / "lean" / "CollectionsC"
-    have_thm = (lean / "Properties" / f"{pid}.lean").exists()
+    have_thm = (lean / "Properties" / f"{pid}.lean").exists() or bool(list((lean / "Properties").glob(f"{pid}[A-Z]*.lean")))
     have_all = all((ROOT / "harness" / f"shim_{c['container']}.c").exists() and
                    any((f"-- container: {c['container']}\n") in q.read_text() for q in (lean / "Driver").glob("*.lean"))
                    for c in P["streams"])
